@@ -238,4 +238,11 @@ among the modal/level events, `.openLevel q _` directly follows `.modalBegin e` 
 def OpenedFor (q : Nat) (e : Entry) (tr : List Tr) : Prop :=
   ∃ b t1 t0, tr.filter Tr.isModalEv = t1 ++ .openLevel q b :: .modalBegin e :: t0
 
+/-- the heads of the straight-line *windows* between the push of a modal entry and its
+`execute_new_loop`, and between the pop of a (modal) entry and the pop of its level -/
+def Instr.isWindowHead : Instr → Bool
+  | .newLoop _ | .callScr _ .closed _ _ | .scrRet _ .closed _ _ | .closeScreen2 .. | .closeLoop | .procIter none
+  | .popLevel => true
+  | _ => false
+
 end Simpleline
